@@ -29,7 +29,7 @@ type c18Case struct {
 func init() {
 	engine.Register(&engine.Check{
 		ID: "C18", Level: "exploration",
-		Rule:        "d in 0..15 x float lattice (every float with <=7 (quick) / <=9 (thorough) significant mantissa bits and exponent in [-70,70] / [-100,100], both signs; 8 decimal mantissas x 10^-8..10^12) placed in points; for every d in 0..15 and m in [-30,30] the decimal tie (m+1/2)*10^-d rounded to float64 and its +-1,+-2 ulp neighbours; 10^k-eps values, +-0, min denormal, 1e300; x one valid geometry per kind and six geometries with empty members (MultiPoint with an empty point in the middle / at the end, MultiLineString and MultiPolygon with an empty member, empty LineString and Polygon) in XY/XYZ/XYM/XYZM (WKT) and XY/XYZ/XYZM (GeoJSON, without bbox and with bbox in both option orders) filled from the tie values. Every encode under test is the second call of a two-call history whose first call fails after partial output. Oracle: every emitted number matches -?digits(.digits{1,d})? with no trailing zero; as an exact rational it differs from the exact input ordinate by <= 1/2*10^-d; the output parses (wkt.Unmarshal / JSON) to the same type, structure and number of ordinates; bbox numbers likewise against the exact min/max. distinct_nontrivial = distinct (codec, geometry, d, bbox) tuples Also: LinearRing values given to the WKT encoder directly (closed in X,Y only, fully closed, open) and polygon rings whose closing position carries its own M. Round 7: every GeoJSON case calls a second time with the same option slice (identical output); every tuple of 2..4 values over a 12-value magnitude menu (integral, fractional, tiny, 2^52-0.5, 2^52, 2^53+2, 1e20, 1e300) as points and two-vertex lines. Round 10: collection shapes (flat, nested, with an empty nested collection), the tree of geometry types compared.",
+		Rule:        "d in 0..15 x float lattice (every float with <=7 (quick) / <=9 (thorough) significant mantissa bits and exponent in [-70,70] / [-100,100], both signs; 8 decimal mantissas x 10^-8..10^12) placed in points; for every d in 0..15 and m in [-30,30] the decimal tie (m+1/2)*10^-d rounded to float64 and its +-1,+-2 ulp neighbours; 10^k-eps values, +-0, min denormal, 1e300; x one valid geometry per kind and six geometries with empty members (MultiPoint with an empty point in the middle / at the end, MultiLineString and MultiPolygon with an empty member, empty LineString and Polygon) in XY/XYZ/XYM/XYZM (WKT) and XY/XYZ/XYZM (GeoJSON, without bbox and with bbox in both option orders) filled from the tie values. Every encode under test is the second call of a two-call history whose first call fails after partial output. Oracle: every emitted number matches -?digits(.digits{1,d})? with no trailing zero; as an exact rational it differs from the exact input ordinate by <= 1/2*10^-d; the output parses (wkt.Unmarshal / JSON) to the same type, structure and number of ordinates; bbox numbers likewise against the exact min/max. distinct_nontrivial = distinct (codec, geometry, d, bbox) tuples Also: LinearRing values given to the WKT encoder directly (closed in X,Y only, fully closed, open) and polygon rings whose closing position carries its own M. Round 7: every GeoJSON case calls a second time with the same option slice (identical output); every tuple of 2..4 values over a 12-value magnitude menu (integral, fractional, tiny, 2^52-0.5, 2^52, 2^53+2, 1e20, 1e300) as points and two-vertex lines. Round 10: collection shapes (flat, nested, with an empty nested collection), the tree of geometry types compared. Round 12: WKT output compared in shape (keywords, tags, EMPTY, parentheses, numbers per position) with the reference writer; collections whose members have different layouts (every ordered pair of layouts x every ordered pair of shapes, flat and nested).",
 		Run:         c18Run,
 		Replay:      func(c *engine.Ctx, kind string, raw json.RawMessage) { c18Exec(c, decodeCase[c18Case](raw)) },
 		Assumptions: []string{"finite ordinates; math/big decimal parsing exact"},
@@ -157,6 +157,18 @@ func c18Exec(c *engine.Ctx, cs c18Case) {
 				return
 			}
 		}
+		// the text has the shape of the geometry: the same keywords, dimension tags, EMPTYs,
+		// parentheses and numbers per position as the reference writer's text (a collection's own
+		// tag aside, and a multipoint's positions with or without their own parentheses)
+		if sh := wktShape(s); sh != wktShape(ref.WriteWKT(g, ref.WKTStyle{Detached: true})) && sh != wktShape(ref.WriteWKT(g, ref.WKTStyle{Detached: true, MPParens: true})) {
+			fail("shape", fmt.Sprintf("output %q has the shape %s, the geometry %s", clipStr(s, 300), clipStr(sh, 300), clipStr(wktShape(ref.WriteWKT(g, ref.WKTStyle{Detached: true})), 300)))
+			return
+		}
+		if g.Kind == ref.Collection && c18MixedLayouts(g) {
+			// (members of different dimensions: the library's own parser refuses such a text, the
+			// shape comparison above stands in for it)
+			break
+		}
 		// still valid WKT of the same type, structure and ordinate count
 		back, perr := wkt.Unmarshal(s)
 		if perr != nil {
@@ -269,6 +281,67 @@ func c18Exec(c *engine.Ctx, cs c18Case) {
 	c.Count("numbers_checked", int64(len(want)))
 	c.DistinctStr(mustJSON(cs))
 	c.Sample(fmt.Sprintf("%s/d=%d", cs.Codec, cs.D), 1, cs)
+}
+
+var wktTokRe = regexp.MustCompile(`[A-Za-z]+|[(),]|[-+]?(?:[0-9]+\.?[0-9]*|\.[0-9]+)(?:[eE][-+]?[0-9]+)?`)
+
+// wktShape reduces a WKT text to its structure: keywords (type names split from attached
+// dimension tags, a collection's own tag dropped), EMPTY, parentheses, commas and the number of
+// numbers of every position.
+func wktShape(s string) string {
+	var out []string
+	n := 0
+	flush := func() {
+		if n > 0 {
+			out = append(out, fmt.Sprintf("n%d", n))
+			n = 0
+		}
+	}
+	names := []string{"GEOMETRYCOLLECTION", "MULTILINESTRING", "MULTIPOLYGON", "MULTIPOINT", "LINESTRING", "POLYGON", "POINT"}
+	for _, tok := range wktTokRe.FindAllString(s, -1) {
+		c := tok[0]
+		switch {
+		case c >= 'A' && c <= 'Z' || c >= 'a' && c <= 'z':
+			flush()
+			w := strings.ToUpper(tok)
+			for _, nm := range names {
+				if strings.HasPrefix(w, nm) {
+					if rest := w[len(nm):]; rest == "Z" || rest == "M" || rest == "ZM" {
+						out = append(out, nm)
+						w = rest
+					}
+					break
+				}
+			}
+			if (w == "Z" || w == "M" || w == "ZM") && len(out) > 0 && out[len(out)-1] == "GEOMETRYCOLLECTION" {
+				continue
+			}
+			out = append(out, w)
+		case c == '(' || c == ')' || c == ',':
+			flush()
+			out = append(out, tok)
+		default:
+			n++
+		}
+	}
+	flush()
+	return strings.Join(out, " ")
+}
+
+func c18MixedLayouts(g *ref.G) bool {
+	ls := map[geom.Layout]bool{}
+	var walk func(*ref.G)
+	walk = func(x *ref.G) {
+		if x.Kind == ref.Collection {
+			for _, k := range x.Kids {
+				walk(k)
+			}
+			return
+		}
+		ls[x.Layout] = true
+	}
+	walk(g)
+	return len(ls) > 1
 }
 
 func clipStr(s string, n int) string {
@@ -562,6 +635,31 @@ func c18Run(c *engine.Ctx) {
 								c18Exec(c, c18Case{Codec: "geojson", G: g, D: d, BBox: bb})
 							}
 						}
+					}
+				}
+			}
+		}
+	})
+	// collections whose members have DIFFERENT layouts (WKT only; GeoJSON has no dimension tags):
+	// every ordered pair of layouts x every ordered pair of the stand-alone shapes, flat and with
+	// the second member inside a nested collection; each member is written with its own tag and
+	// its own number of numbers per position
+	c.Parallel(16, func(i int) {
+		l1, l2 := ref.Layouts4[i/4], ref.Layouts4[i%4]
+		if l1 == l2 {
+			return
+		}
+		v := 0.0
+		next := func() ref.F { v += 1.375; return ref.F(v) }
+		for _, a := range c18Shapes(l1, next) {
+			for _, b := range c18Shapes(l2, next) {
+				if a.Kind == ref.Collection || b.Kind == ref.Collection || a.Kind == ref.LinearRing || b.Kind == ref.LinearRing {
+					continue
+				}
+				for _, g := range []*ref.G{ref.NewCollection(geom.NoLayout, a, b), ref.NewCollection(geom.NoLayout, a, ref.NewCollection(geom.NoLayout, b, a))} {
+					for _, d := range []int{0, 2} {
+						c.Count("mixed_layout_collections", 1)
+						c18Exec(c, c18Case{Codec: "wkt", G: g, D: d})
 					}
 				}
 			}
